@@ -378,14 +378,18 @@ theorem stale_equal_rule_witness (mo : Module R) (o r : R) (hval : mo.valid r = 
 /-- what holds of the file source at every moment -/
 def FileInv (conv : B → Conv (WireList R)) (mo : Module R) (s : FileSrc B R) : Prop :=
   Inv mo s.hm ∧
-  (s.closed = true → s.hm.2.enforced = []) ∧
-  (s.closed = false → s.pending = false → ∀ c v, s.content = some c → conv c = .ok v →
+  (s.closed = true ∨ s.rewatching = true → s.hm.2.enforced = []) ∧
+  (s.closed = false → s.rewatching = false → s.pending = false → ∀ c v, s.content = some c → conv c = .ok v →
       List.Forall₂ (InForceFor mo) s.hm.2.enforced (validElems mo.valid v))
 
-/-- For every sequence of events (writes, the watcher looking at the file, removal): once the watcher has looked after
-    the last write (`pending = false`) the rules in force are those of the file's **current** content if that decodes
-    (an undecodable content leaves the previous rules, by `faithful_or_rejected`); after a removal — and when the file
-    never existed — the rules are cleared, and stay so. -/
+/-- For every sequence of events — in-place writes, the watcher looking at the file, removal, rename-away, re-creation
+    during or after the re-watch retries, giving up, replacement by rename-over —:
+    * while the source is open and idle (the watcher has looked after the last write, no re-watch in progress) the rules
+      in force are those of the file's **current** content if that decodes (an undecodable content leaves the previous
+      rules, by `faithful_or_rejected`); in particular a file re-created while the re-watch retries are pending **is
+      loaded** (`recreate` falls through to the read);
+    * while the file is away (re-watch in progress) and once the source has closed (removal, retries exhausted,
+      rename-over, file never existed) the rules are cleared, and stay so. -/
 theorem file_source_converges (conv : B → Conv (WireList R)) (eqv : Option (WireList R) → Option (WireList R) → Bool)
     (mo : Module R) (empty : B) (hsound : SoundFor mo eqv) (hempty : conv empty = .ok none) (c0 : Option B)
     (evs : List (FileEv B)) :
@@ -395,7 +399,7 @@ theorem file_source_converges (conv : B → Conv (WireList R)) (eqv : Option (Wi
     | none => exact ⟨inv_init mo, fun _ => rfl, fun h => by simp [FileSrc.init] at h⟩
     | some c =>
       refine ⟨inv_deliver conv eqv mo hsound _ c (inv_init mo), fun h => by simp [FileSrc.init] at h, ?_⟩
-      intro _ _ c' v hc' hv
+      intro _ _ _ c' v hc' hv
       simp only [FileSrc.init, Option.some.injEq] at hc'
       subst hc'
       exact deliver_ok_inforce conv eqv mo hsound _ _ (inv_init mo) v hv
@@ -406,36 +410,174 @@ theorem file_source_converges (conv : B → Conv (WireList R)) (eqv : Option (Wi
     intro s hs
     apply ih
     obtain ⟨h1, h2, h3⟩ := hs
-    cases e with
-    | write c =>
-      unfold FileSrc.step
-      by_cases hc : s.content.isSome = true
-      · simp only [hc, if_true]
-        exact ⟨h1, h2, fun _ hp => by simp at hp⟩
-      · simp only [hc]
-        exact ⟨h1, h2, h3⟩
-    | proc =>
-      unfold FileSrc.step
-      by_cases hcl : s.closed = true
-      · simp only [hcl, if_true]; exact ⟨h1, h2, h3⟩
-      · have hcf : s.closed = false := by simpa using hcl
-        simp only [hcf, Bool.false_eq_true, if_false]
+    have hclear : ∀ hm, Inv mo hm → (deliver conv eqv mo hm empty).1.2.enforced = [] := fun hm hi =>
+      (empty_clears conv eqv mo hm empty hsound hi (Or.inl hempty)).2
+    cases hcl : s.closed <;> cases hrw : s.rewatching
+    · -- open, not re-watching
+      cases e with
+      | write c =>
+        unfold FileSrc.step
+        by_cases hc : s.content.isSome = true
+        · simp only [hc, if_true]
+          exact ⟨h1, h2, fun _ _ hp => by simp at hp⟩
+        · simp only [hc]; exact ⟨h1, h2, h3⟩
+      | proc =>
+        simp only [FileSrc.step, hcl, hrw, Bool.or_self, Bool.false_eq_true, if_false]
         cases hcont : s.content with
         | none => exact ⟨h1, h2, h3⟩
         | some c =>
-          refine ⟨inv_deliver conv eqv mo hsound _ c h1, fun h => by simp [hcf] at h, ?_⟩
-          intro _ _ c' v hc' hv
+          refine ⟨inv_deliver conv eqv mo hsound _ c h1, fun h => by simp [hcl, hrw] at h, ?_⟩
+          intro _ _ _ c' v hc' hv
           have hcc : c = c' := by simpa [hcont] using hc'
           subst hcc
           exact deliver_ok_inforce conv eqv mo hsound _ _ h1 v hv
-    | remove =>
-      unfold FileSrc.step
-      by_cases hcl : s.closed = true
-      · simp only [hcl, if_true]
-        exact ⟨h1, fun _ => h2 hcl, fun h => by simp at h⟩
-      · have hcf : s.closed = false := by simpa using hcl
-        simp only [hcf, Bool.false_eq_true, if_false]
-        refine ⟨inv_deliver conv eqv mo hsound _ empty h1, fun _ => ?_, fun h => by simp at h⟩
-        exact (empty_clears conv eqv mo s.hm empty hsound h1 (Or.inl hempty)).2
+      | remove =>
+        simp only [FileSrc.step, hcl, hrw, Bool.or_self, Bool.false_eq_true, if_false]
+        exact ⟨inv_deliver conv eqv mo hsound _ empty h1, fun _ => hclear _ h1, fun h => by simp at h⟩
+      | renameAway =>
+        simp only [FileSrc.step, hcl, hrw, Bool.or_self, Bool.false_eq_true, if_false]
+        exact ⟨inv_deliver conv eqv mo hsound _ empty h1, fun _ => hclear _ h1, fun _ h => by simp at h⟩
+      | recreate c =>
+        simp only [FileSrc.step, hcl, hrw, Bool.false_eq_true, if_false]
+        exact ⟨h1, h2, h3⟩
+      | giveUp =>
+        simp only [FileSrc.step, hrw, Bool.false_eq_true, if_false]
+        exact ⟨h1, h2, h3⟩
+      | replaceOver c =>
+        simp only [FileSrc.step, hcl, hrw, Bool.false_eq_true, if_false]
+        have hi1 := inv_deliver conv eqv mo hsound _ c h1
+        exact ⟨inv_deliver conv eqv mo hsound _ empty hi1, fun _ => hclear _ hi1, fun h => by simp at h⟩
+    · -- open, re-watching: rules are cleared
+      have hnil : s.hm.2.enforced = [] := h2 (Or.inr hrw)
+      cases e with
+      | write c =>
+        unfold FileSrc.step
+        by_cases hc : s.content.isSome = true
+        · simp only [hc, if_true]
+          exact ⟨h1, h2, fun _ h => by simp [hrw] at h⟩
+        · simp only [hc]; exact ⟨h1, h2, h3⟩
+      | proc =>
+        simp only [FileSrc.step, hcl, hrw, Bool.or_true, if_true]
+        exact ⟨h1, h2, h3⟩
+      | remove =>
+        simp only [FileSrc.step, hcl, hrw, Bool.or_true, if_true]
+        exact ⟨h1, fun _ => hnil, fun _ h => by simp [hrw] at h⟩
+      | renameAway =>
+        simp only [FileSrc.step, hcl, hrw, Bool.or_true, if_true]
+        exact ⟨h1, fun _ => hnil, fun _ h => by simp [hrw] at h⟩
+      | recreate c =>
+        simp only [FileSrc.step, hcl, hrw, Bool.false_eq_true, if_false, if_true]
+        refine ⟨inv_deliver conv eqv mo hsound _ c h1, fun h => by simp [hcl] at h, ?_⟩
+        intro _ _ _ c' v hc' hv
+        have hcc : c = c' := by simpa using hc'
+        subst hcc
+        exact deliver_ok_inforce conv eqv mo hsound _ _ h1 v hv
+      | giveUp =>
+        simp only [FileSrc.step, hrw, if_true]
+        exact ⟨h1, fun _ => hnil, fun h => by simp at h⟩
+      | replaceOver c =>
+        simp only [FileSrc.step, hcl, hrw, Bool.false_eq_true, if_false, if_true]
+        refine ⟨inv_deliver conv eqv mo hsound _ c h1, fun h => by simp [hcl] at h, ?_⟩
+        intro _ _ _ c' v hc' hv
+        have hcc : c = c' := by simpa using hc'
+        subst hcc
+        exact deliver_ok_inforce conv eqv mo hsound _ _ h1 v hv
+    all_goals
+      -- closed: nothing but the path's content ever changes again
+      have hnil : s.hm.2.enforced = [] := h2 (Or.inl hcl)
+      cases e with
+      | write c =>
+        unfold FileSrc.step
+        by_cases hc : s.content.isSome = true
+        · simp only [hc, if_true]
+          exact ⟨h1, fun _ => hnil, fun h => by simp [hcl] at h⟩
+        · simp only [hc]; exact ⟨h1, h2, h3⟩
+      | proc =>
+        simp only [FileSrc.step, hcl, Bool.true_or, if_true]
+        exact ⟨h1, h2, h3⟩
+      | remove =>
+        simp only [FileSrc.step, hcl, Bool.true_or, if_true]
+        exact ⟨h1, fun _ => hnil, fun h => by simp [hcl] at h⟩
+      | renameAway =>
+        simp only [FileSrc.step, hcl, Bool.true_or, if_true]
+        exact ⟨h1, fun _ => hnil, fun h => by simp [hcl] at h⟩
+      | recreate c =>
+        simp only [FileSrc.step, hcl, if_true]
+        exact ⟨h1, fun _ => hnil, fun h => by simp [hcl] at h⟩
+      | giveUp =>
+        unfold FileSrc.step
+        by_cases hr : s.rewatching = true
+        · simp only [hr, if_true]
+          exact ⟨h1, fun _ => hnil, fun h => by simp at h⟩
+        · simp only [hr]; exact ⟨h1, h2, h3⟩
+      | replaceOver c =>
+        simp only [FileSrc.step, hcl, if_true]
+        exact ⟨h1, fun _ => hnil, fun h => by simp [hcl] at h⟩
+
+/-- The file part of the property as stated: after any events that do not remove the file for good (no `remove`, no
+    exhausted retries), once nothing is pending the rules are those of the current content. -/
+def file_converges_statement : Prop :=
+  ∀ {B R : Type} (conv : B → Conv (WireList R)) (eqv : Option (WireList R) → Option (WireList R) → Bool)
+    (mo : Module R) (empty : B), SoundFor mo eqv → conv empty = .ok none → ∀ (c0 : B) (evs : List (FileEv B)),
+    (∀ e ∈ evs, match e with | .remove => False | .giveUp => False | _ => True) →
+    let s := FileSrc.run conv eqv mo empty (FileSrc.init conv eqv mo (some c0)).1 evs
+    s.pending = false → s.rewatching = false → ∀ c v, s.content = some c → conv c = .ok v →
+      List.Forall₂ (InForceFor mo) s.hm.2.enforced (validElems mo.valid v)
+
+/-- Known finding `file-replace-over-closes-source`: a file replaced the way editors and config-management tools do it
+    (temp file renamed over the path) leaves the rules **cleared** and the source closed, although the path holds a
+    complete decodable file. -/
+theorem replace_over_witness (conv : B → Conv (WireList R)) (eqv : Option (WireList R) → Option (WireList R) → Bool)
+    (mo : Module R) (empty : B) (hsound : SoundFor mo eqv) (hempty : conv empty = .ok none) (c0 c : B) :
+    let s := FileSrc.run conv eqv mo empty (FileSrc.init conv eqv mo (some c0)).1 [.replaceOver c]
+    s.content = some c ∧ s.closed = true ∧ s.pending = false ∧ s.rewatching = false ∧ s.hm.2.enforced = [] := by
+  have hi0 := inv_deliver conv eqv mo hsound ({}, {}) c0 (inv_init mo)
+  have hi1 := inv_deliver conv eqv mo hsound _ c hi0
+  refine ⟨rfl, rfl, rfl, rfl, ?_⟩
+  exact (empty_clears conv eqv mo _ empty hsound hi1 (Or.inl hempty)).2
+
+/-- … so the statement is false as it stands -/
+theorem file_converges_false : ¬ file_converges_statement := by
+  intro h
+  -- one rule type `Unit`, every rule valid; bytes `Bool`: `true` = a file holding one rule, `false` = the empty source
+  let conv : Bool → Conv (WireList Unit) := fun b => if b then .ok (some (some [some ()])) else .ok none
+  have hs : SoundFor ({ valid := fun _ => true } : Module Unit) (fun a b => decide (a = b)) :=
+    soundEq_soundFor _ _ (by intro a b hab; simpa using hab)
+  have hw := replace_over_witness conv (fun a b => decide (a = b)) { valid := fun _ => true } false hs rfl true true
+  have := h conv (fun a b => decide (a = b)) { valid := fun _ => true } false hs rfl true [.replaceOver true]
+    (by intro e he; simp at he; subst he; trivial) hw.2.2.1 hw.2.2.2.1 true (some (some [some ()])) hw.1 rfl
+  rw [hw.2.2.2.2] at this
+  simp [validElems, WireList.elems] at this
+
+/-- Without rename-over (and without removal / exhausted retries) the source never closes, so `file_source_converges`
+    gives the statement: this is the `_partial`. -/
+theorem file_converges_partial (conv : B → Conv (WireList R)) (eqv : Option (WireList R) → Option (WireList R) → Bool)
+    (mo : Module R) (empty : B) (hsound : SoundFor mo eqv) (hempty : conv empty = .ok none) (c0 : B)
+    (evs : List (FileEv B))
+    (hev : ∀ e ∈ evs, match e with | .remove => False | .giveUp => False | .replaceOver _ => False | _ => True) :
+    let s := FileSrc.run conv eqv mo empty (FileSrc.init conv eqv mo (some c0)).1 evs
+    s.pending = false → s.rewatching = false → ∀ c v, s.content = some c → conv c = .ok v →
+      List.Forall₂ (InForceFor mo) s.hm.2.enforced (validElems mo.valid v) := by
+  intro s hp hr c v hc hv
+  have hopen : ∀ (es : List (FileEv B)) (t : FileSrc B R),
+      (∀ e ∈ es, match e with | .remove => False | .giveUp => False | .replaceOver _ => False | _ => True) →
+      t.closed = false → (FileSrc.run conv eqv mo empty t es).closed = false := by
+    intro es
+    induction es with
+    | nil => intro t _ ht; exact ht
+    | cons e es ih =>
+      intro t he ht
+      apply ih _ (fun e' h' => he e' (List.mem_cons_of_mem _ h'))
+      have h0 := he e (List.mem_cons_self ..)
+      cases e with
+      | remove => exact absurd h0 (by simp)
+      | giveUp => exact absurd h0 (by simp)
+      | replaceOver c => exact absurd h0 (by simp)
+      | write c => cases hct : t.content <;> simp [FileSrc.step, ht, hct]
+      | proc => cases hct : t.content <;> cases hrw : t.rewatching <;> simp [FileSrc.step, ht, hct, hrw]
+      | renameAway => cases hrw : t.rewatching <;> simp [FileSrc.step, ht, hrw]
+      | recreate c => cases hrw : t.rewatching <;> simp [FileSrc.step, ht, hrw]
+  have hcl : s.closed = false := hopen evs _ hev rfl
+  exact (file_source_converges conv eqv mo empty hsound hempty (some c0) evs).2.2 hcl hr hp c v hc hv
 
 end Sentinel.C18
